@@ -19,7 +19,7 @@ RULE = ('generated VCFs (1-4 contigs incl. one un-cacheable name, 1-4 samples, p
         'queried in a random contig order that returns to evicted contigs. Non-trivial = query on a site stored by at least one mode; '
         'distinct = distinct (vcf, configuration, contig, pos, base).'
         ' Plus the empty sample selection, caches written under another sample selection, panels of 18-32 long sample names (cache file name over 255 bytes).')
-ASSUMPTIONS = ['pysam VariantFile / tabix are trusted', 'truth is only demanded on clean sites (every selected sample has a single-base, non-missing genotype, '
+ASSUMPTIONS = ['pysam VariantFile / tabix are trusted', 'truth is only demanded on clean sites (every called allele of the selected samples is a single base, '
                '>= 2 distinct bases over the selected samples, no ignored conversion); elsewhere answers must be a subset of the carriers',
                'positions >= 0 are queried (position -1 is an internal sentinel)']
 MIN_NONTRIVIAL = {'quick': 1500, 'thorough': 100000}
@@ -224,7 +224,9 @@ def truth_for(rows, samples, select, ignore, phased):
                 else:
                     multibase = True
         ign = ignore is not None and any((ref, b) in ignore for b in carriers)
-        clean = (not missing) and (not multibase) and len(carriers) >= 2 and not ign and len(sel) > 0
+        # a selected sample without a call at the site does not make the site uninformative as long as the called selected samples show
+        # two distinct single bases: the carriers are still exactly the samples whose genotype contains the base
+        clean = (not multibase) and len(carriers) >= 2 and not ign and len(sel) > 0
         # (with a half-missing call only the clean sites are decided: what a monomorphic / multi-base / ignored site with an uncalled
         # haplotype should answer is left open)
         nothing = (ign or (multibase and not missing) or (not missing and len(carriers) < 2)) and not half_missing
